@@ -434,6 +434,7 @@ def make_namespaces(oblig):
     for u in ("exp", "log", "sin", "cos", "tan", "sinh", "cosh", "tanh", "sqrt", "arcsin", "arccos", "arctan", "arcsinh", "arccosh", "arctanh", "log2", "log10", "log1p", "expm1", "exp2",
               "square", "reciprocal", "sinc", "deg2rad", "rad2deg", "degrees", "radians"):
         impls[u] = unary
+    impls.update(angle=a_real, fabs=unary, real_if_close=same, nan_to_num=same, ceil=same, rint=same, trunc=same, fix=same, round=same, around=same)
     def a_tile(x, reps):
         reps = (reps,) if isinstance(reps, int) else tuple(reps)
         sh = tuple(shape_of(x))
@@ -517,6 +518,68 @@ def make_namespaces(oblig):
                  split=a_split, pad=a_pad, rot90=a_rot90, matmul=a_matmul, atleast_1d=a_atleast(1), atleast_2d=a_atleast(2), atleast_3d=a_atleast(3),
                  flipud=same, fliplr=same, roll=same, triu=same, tril=same, cumsum=lambda x, axis=None: (same(x) if axis is not None else a_ravel(x)),
                  clip=lambda x, lo, hi: SArr(bshape(shape_of(x), shape_of(lo), shape_of(hi)), promote(kind_of(x), kind_of(lo), kind_of(hi))))
+    # ---- further shape contracts (diag / eye / trace / full / linspace / kron / diff / cross)
+    def _smin(a, b):
+        ta, tb = cx.term(a), cx.term(b)
+        return cx.SInt(z3.If(ta <= tb, ta, tb))
+
+    def _smax0(a):
+        ta = cx.term(a)
+        return cx.SInt(z3.If(ta >= 0, ta, 0))
+
+    def a_diag(x, k=0):
+        sh = shape_of(x)
+        if len(sh) == 1:
+            n = sh[0] + abs(k)
+            return SArr((n, n), kind_of(x))
+        if len(sh) == 2:
+            n, m = sh
+            ln = _smax0(_smin(n, m - k)) if k >= 0 else _smax0(_smin(n + k, m))
+            return SArr((ln,), kind_of(x))
+        raise ValueError("diag: input must be 1- or 2-d")
+
+    def a_eye(n, m=None, k=0, dtype=None):
+        return SArr((n, n if m is None else m), "real")
+
+    def a_trace(x, offset=0, axis1=0, axis2=1):
+        sh = list(shape_of(x))
+        if len(sh) < 2:
+            raise ValueError("trace: at least 2-d")
+        a1, a2 = axis1 % len(sh), axis2 % len(sh)
+        return SArr(tuple(d for i, d in enumerate(sh) if i not in (a1, a2)), kind_of(x))
+
+    def a_full(shape, fill_value, dtype=None):
+        shape = tuple(shape) if isinstance(shape, (tuple, list)) else (shape,)
+        oblig("full: fill value broadcastable to shape", z3.BoolVal(True))
+        bshape(shape, shape_of(fill_value))
+        return SArr(shape, kind_of(fill_value) if dtype is None else "real")
+
+    def a_linspace(start, stop, num=50, **kw):
+        return SArr((num,) + tuple(bshape(shape_of(start), shape_of(stop))), promote("real", kind_of(start), kind_of(stop)))
+
+    def a_kron(a, b):
+        sa, sb = list(shape_of(a)), list(shape_of(b))
+        nd = max(len(sa), len(sb))
+        sa, sb = [1] * (nd - len(sa)) + sa, [1] * (nd - len(sb)) + sb
+        return SArr(tuple(x_ * y_ for x_, y_ in zip(sa, sb)), promote(kind_of(a), kind_of(b)))
+
+    def a_diff(x, n=1, axis=-1):
+        sh = list(shape_of(x))
+        ax = axis % len(sh)
+        sh[ax] = _smax0(sh[ax] - n)
+        return SArr(tuple(sh), kind_of(x))
+
+    def a_cross(a, b, axisa=-1, axisb=-1, axisc=-1, axis=None):
+        if (axisa, axisb, axisc, axis) != (-1, -1, -1, None):
+            raise shadow.NotModelled("cross with non-default axes")
+        sa, sb = shape_of(a), shape_of(b)
+        if not sa or not sb or sa[-1] != 3 or sb[-1] != 3:
+            raise shadow.NotModelled("cross of non-3-vectors")
+        return SArr(tuple(bshape(sa[:-1], sb[:-1])) + (3,), promote(kind_of(a), kind_of(b)))
+
+    def a_concatenate(arrs, axis=0):
+        return a_concat_args(axis, *arrs)
+    impls.update(diag=a_diag, eye=a_eye, trace=a_trace, full=a_full, linspace=a_linspace, kron=a_kron, diff=a_diff, cross=a_cross, concatenate=a_concatenate)
     import numpy as _rnp
 
     def _abstract(v):
